@@ -412,3 +412,29 @@ Example nonvacuous12 :
   run_C12 w12_refused = [1; 0; 1; 0]%Z /\ spec_C12 w12_refused (run_C12 w12_refused) = true /\
   run_C12 (CJson [fld 32 TString false None; fld 33 TFloat true None] [(32, LStr false None); (33, LInt)]) = [1; 1; 4; 3]%Z.
 Proof. repeat split; vm_compute; reflexivity. Qed.
+
+(* ------------------------------------------------------------------ the size limit *)
+Local Close Scope N_scope.
+(* both paths measure the row as signed: the same number, hence the same side of the limit *)
+Theorem size_measured_same r : local_measured r = peer_measured r.
+Proof. reflexivity. Qed.
+
+Theorem size_agree max u r : violations12 (CSize max u r) (run_C12 (CSize max u r)) = [].
+Proof.
+  unfold run_C12, violations12, local_measured, peer_measured.
+  destruct (exceeds max (node_size r)); cbn [negb zb Z.eqb andb orb]; [rewrite Z.eqb_refl|]; reflexivity.
+Qed.
+
+(* the bit the row models carry: if the local head's bit is what the local path measures and the
+   received row's bit is what the peer measures, they are the same bit (so C12_write_holds applies
+   to rows at the limit) *)
+Theorem size_bit_transfers max r me h :
+  h_too_big h = exceeds max (local_measured r) -> n_too_big (sent_row me h) = exceeds max (peer_measured r).
+Proof. intros H. cbn [sent_row n_too_big]. rewrite H. reflexivity. Qed.
+
+(* the limit is sharp: one more byte of content is one more byte measured *)
+Theorem size_one_more_byte r l :
+  sr_json_len r = Some l ->
+  node_size {| sr_room := sr_room r; sr_ent_len := sr_ent_len r; sr_json_len := Some (l + 1)%N; sr_bin_len := sr_bin_len r;
+               sr_key_len := sr_key_len r; sr_sig_len := sr_sig_len r |} = (node_size r + 1)%N.
+Proof. intros H. unfold node_size. cbn [sr_room sr_ent_len sr_json_len sr_bin_len sr_key_len sr_sig_len]. rewrite H. unfold opt_bytes. lia. Qed.
